@@ -311,3 +311,18 @@ Theorem c11_pools_over_time : forall l,
   end.
 Proof. exact pools_over_time. Qed.
 Print Assumptions c11_pools_over_time.
+
+(* a rejection (RESULT 4 FAIL) stays in the pool that owns the listener: with any
+   number of pools, pool q's buffer and what its listener is sent are what they
+   would be for q alone ... *)
+Theorem c11_reject_local : forall l w q s0, pools_get w q = Some s0 ->
+  pools_get (rrun w l) q = Some (fold_left (q_local q) l s0).
+Proof. exact reject_local. Qed.
+Print Assumptions c11_reject_local.
+
+(* ... so two histories that differ only in what OTHER pools' listeners answer send q's listener the same envelopes *)
+Theorem c11_reject_frame : forall l l' w q s0, pools_get w q = Some s0 ->
+  filter (concerns q) l = filter (concerns q) l' ->
+  sent_of (rrun w l) q = sent_of (rrun w l') q.
+Proof. exact reject_frame. Qed.
+Print Assumptions c11_reject_frame.
